@@ -569,3 +569,13 @@ def gen_common(rng, k):
     if k == 'delay_close':
         return [k, rng.chance(0.2)]
     raise ValueError(k)
+
+
+def mask_of_view(data, state, view):
+    from glue.core.exceptions import IncompatibleAttribute
+    try:
+        return 'ok', np.array(data.get_mask(state, view=view), dtype=bool)
+    except IncompatibleAttribute:
+        return 'incompatible', None
+    except (IndexError, ValueError, TypeError, AttributeError, AssertionError) as e:
+        return 'error:%s' % type(e).__name__, None
